@@ -48,6 +48,22 @@ PrintAll(cs, idx, note) ==
 \* but any message is recorded as "after fault"
 Faulted == Fault.kind # "none" /\ j > Fault.at
 
+\* the specification's AMF is itself held to TS 38.413 9.2: every downlink message it is about to send decodes to a message of the
+\* tables of Ngap!Msg38413 with all mandatory IEs, the tabulated criticalities, no IE twice, in table order (a non-conformant stimulus
+\* would make every verdict about the emulator's reaction meaningless: reported as a harness error, never as a violation)
+RECURSIVE DlComplaints(_)
+DlComplaints(outs) ==
+   IF Len(outs) = 0 THEN {}
+   ELSE LET d == NgapDecode(Head(outs)) IN
+        (IF ~d.ok THEN {"HARNESS: the specification's AMF built an undecodable message: " \o d.why}
+         ELSE LET ms == MsgOf(PduClass(d.v), PduProc(d.v)) IN
+              IF ms = {} THEN {"HARNESS: the specification's AMF built a message without a table in Ngap!Msg38413"}
+              ELSE LET m == CHOOSE x \in ms : TRUE
+                       w == WellFormed(d.v, m) IN
+                   {"HARNESS: the specification's AMF built a " \o m \o " that is not well-formed: " \o c : c \in w}
+                   \cup (IF InTableOrder(d.v, m) THEN {} ELSE {"HARNESS: the specification's AMF built a " \o m \o " whose IEs are not in table order"}))
+        \cup DlComplaints(Tail(outs))
+
 Init == k = 0 /\ j = 0 /\ amf = AmfInit /\ nbad = 0 /\ notes = <<>> /\ phase = "run" /\ result = [kind |-> "none"]
 Step ==
    /\ phase = "run"
@@ -56,6 +72,7 @@ Step ==
          LET r == AmfHandle(amf, ev.bytes)
              noteStr == r.note IN
          /\ (IF Faulted THEN TRUE ELSE PrintAll(r.complaints, k, noteStr))
+         /\ PrintAll(DlComplaints(r.out), k, "Model")
          /\ SendAll(j, r.out)
          /\ amf' = r.amf /\ j' = j + Len(r.out) /\ k' = k + 1
          /\ nbad' = nbad + Cardinality(r.complaints)
